@@ -103,9 +103,14 @@ func decodeStr(tok string) string {
 	return b.String()
 }
 
+// text renders an answer: printable ASCII as is, anything else (only possible
+// when the code under test misbehaves) in the escaped form of encodeStr.
 func text(s string) string {
 	if s == "" {
 		return "-"
+	}
+	if e := encodeStr(s); !strings.HasPrefix(e, "s:") {
+		return e
 	}
 	return s
 }
@@ -184,7 +189,7 @@ func main() {
 					oracle = fmt.Sprintf("class=identifier-collision random values %s and %s both give %q", prev, f[2], body)
 				}
 				seen[body] = f[2]
-				return "ok " + id, oracle
+				return "ok " + text(id), oracle
 			case "valid":
 				s := decodeStr(f[1])
 				got := identifier.IsValid(s)
